@@ -2,9 +2,9 @@ import PyxModel.Oal.Lex
 import Gen.OalLex
 
 /-! the OAL lexer model instantiated with the tables generated from `bridgepoint/oal.py` -/
-namespace Pyx.Oal
+namespace Pyx.OalLex
 
 /-- token stream of `text` under the rule table, keyword table and `t_ignore` that the source has now -/
 def lex (text : List Char) : List Tok := lexWith Gen.OalLex.cfg text
 
-end Pyx.Oal
+end Pyx.OalLex
